@@ -335,7 +335,7 @@ MUTATIONS = ["rename_existing", "rename_empty", "rename_new", "drop", "duplicate
              "cycle", "bad_elem_type", "bad_data_type", "bad_attr_type", "tensor_fields", "external_absurd",
              "bad_utf8", "clear_type", "map_type", "seq_no_elem", "output_repeat", "output_like_input",
              "move_node_inner", "dup_function", "fn_output_unknown", "attr_dup_name", "init_unnamed",
-             "vi_for_unknown", "graph_attr_ref", "swap_scopes", "dup_init"]
+             "vi_for_unknown", "graph_attr_ref", "swap_scopes", "dup_init", "subgraph_output_outer"]
 
 
 def mutate(m, rng, kind=None):
@@ -547,6 +547,24 @@ def mutate(m, rng, kind=None):
                 rng.choice(sg.node).output.append(rng.choice(o))   # inner output shadowing an outer value
             else:
                 return None
+        elif kind == "subgraph_output_outer":
+            # a subgraph body whose output name is produced only in an enclosing graph (or is an outer input)
+            cands = [(g, a.g) for g in graphs for n in g.node for a in n.attribute if a.HasField("g")]
+            cands += [(g, sg) for g in graphs for n in g.node for a in n.attribute for sg in a.graphs]
+            if not cands:
+                return None
+            g, sg = rng.choice(cands)
+            inner = {o for n in sg.node for o in n.output} | {i.name for i in sg.input} | {t.name for t in sg.initializer}
+            outer = [o for n in g.node for o in n.output if o and o not in inner]
+            if rng.random() < 0.3:
+                outer += [i.name for i in g.input if i.name and i.name not in inner]
+            if not outer:
+                return None
+            k = rng.choice(outer)
+            if len(sg.output) and rng.random() < 0.6:
+                sg.output[rng.randrange(len(sg.output))].name = k
+            else:
+                sg.output.append(gen_vinfo(rng, k))
         elif kind == "dup_init":
             gs = [g for g in graphs if len(g.initializer)]
             if not gs:
@@ -748,6 +766,9 @@ def oracle_invariants(model) -> list[str]:
             outs = p.outputs
             if v.index() is None or not (0 <= v.index() < len(outs)) or outs[v.index()] is not v:
                 bad.append(f"I2: value {v.name!r} claims producer {p.name!r} index {v.index()} but is not that output")
+        if p is not None and p.graph is not None and v.graph is not None and v.graph is not p.graph:
+            bad.append(f"I2/I4: value {v.name!r} is owned by graph {v.graph.name!r} but its producer {p.name!r} "
+                       f"lives in graph {p.graph.name!r}")
         if v.is_graph_input():
             if v.graph is None or not any(x is v for x in v.graph.inputs):
                 bad.append(f"I4: value {v.name!r} is flagged graph input but is not in its graph's inputs")
